@@ -262,7 +262,9 @@ func c07Agreement(c *Ctx, dec, enc *ssa.Function) {
 	c.Check(strings.Contains(dad, "additionalData") && strings.Contains(ead, "additionalData"), "K-C07-aad", fname(dec), "Open and Seal are given the additional data", "", "Open gets "+dad+", Seal gets "+ead, dec.Pos())
 	okNonce := func(s string) bool {
 		// explicit nonce from the record, or the sequence number when there is none
-		return strings.Contains(s, "hc.seq") && (strings.Contains(s, "b.data") || strings.Contains(s, "payload") || strings.Contains(s, "slice("))
+		// (both alternatives must be present: a nonce taken from the sequence number alone leaves the explicit nonce on
+		// the wire unauthenticated and unchecked; one taken from the record alone breaks the implicit-nonce suites)
+		return strings.Contains(s, "hc.seq") && (strings.Contains(s, "b.data") || strings.Contains(s, "payload"))
 	}
 	c.Check(okNonce(dn) && okNonce(en), "K-C07-aad", fname(dec), "nonce is the explicit nonce or the sequence number", "", "Open nonce "+dn+", Seal nonce "+en, dec.Pos())
 	// MAC inputs: (digestBuf, seq, header, payload, extra)
